@@ -95,6 +95,13 @@ func (n *Net) Snapshot() []*Received {
 	return append([]*Received{}, n.Log...)
 }
 
+// Bodies returns the response bodies served since the last Reset.
+func (n *Net) Bodies() [][]byte {
+	n.mu.Lock()
+	defer n.mu.Unlock()
+	return append([][]byte{}, n.ResponseBodies...)
+}
+
 func (n *Net) CallCounts() map[string]int {
 	n.mu.Lock()
 	defer n.mu.Unlock()
